@@ -29,6 +29,16 @@ impl Clone for Quantifier { fn clone(&self) -> Self { unimplemented!() } }
 fn main() {}
 '''
 
+# contracts that other units (elim, regexp) reuse as ASSUMED contracts of the same functions: one text, verified here
+CONCAT_CLAUSES = [('concatenate.sound', 'cat(olang(*a), olang(*b)).subset_of(olang(r))', ['C01', 'C16']),
+                  ('concatenate.exact', 'olang(r) == cat(olang(*a), olang(*b))', ['C02', 'C16']),
+                  ('concatenate.some', 'r is Some ==> *a is Some && *b is Some', ['C02', 'C16'])]
+UNION_CLAUSES = [('union.sound', 'olang(*a).union(olang(*b)).subset_of(olang(r))', ['C01', 'C16']),
+                 ('union.exact', 'olang(r) == olang(*a).union(olang(*b))', ['C02', 'C16']),
+                 ('union.some', 'r is Some ==> *a is Some || *b is Some', ['C02', 'C16'])]
+NEW_LITERAL_CLAUSES = [('new_literal.lang', 'lang(r) == lit_lang(cluster.graphemes@)', ['C02', 'C16']), ('new_literal.shape', 'r is Literal && r->Literal_0 == cluster', ['C02'])]
+NEW_ALTERNATION_ENSURES = ['lang(r) == alt_lang(exprs@)']
+
 def build(repo, spec_dir, canary=False):
     b = Builder(NAME, repo, canary)
     b.emit('#![feature(allocator_api)]\nuse vstd::prelude::*;\nuse vstd::std_specs::cmp::*;\nuse std::collections::BTreeSet;\nverus! {')
@@ -53,16 +63,14 @@ def build(repo, spec_dir, canary=False):
     EX = "^impl<'a> Expression<'a> \\{"
     V = lambda name, **kw: b.verified_fn('expression.rs', name, within=EX, props=['C07'], fname='Expression::' + name, **kw)
     V('new_concatenation', clauses=[Clause('new_concatenation.lang', 'lang(r) == cat(lang(expr1), lang(expr2))', ['C02', 'C16'])])
-    V('new_literal', clauses=[Clause('new_literal.lang', 'lang(r) == lit_lang(cluster.graphemes@)', ['C02', 'C16']), Clause('new_literal.shape', 'r is Literal && r->Literal_0 == cluster', ['C02'])])
+    V('new_literal', clauses=[Clause(*c) for c in NEW_LITERAL_CLAUSES])
     V('new_repetition', clauses=[Clause('new_repetition.lang', 'lang(r) == (match quantifier { Quantifier::QuestionMark => lang(expr).union(eps()), Quantifier::KleeneStar => star(lang(expr)) })', ['C02', 'C16'])])
     V('is_empty', clauses=[Clause('is_empty.eps', 'r ==> lang(*self) == eps()', ['C02', 'C16'])])
     V('precedence')
     VS = 'value_spec(*self, match substring { Some(s) => Some(*s), None => None })'
     V('value', clauses=[Clause('value.spec', 'match r { Some(v) => %s == Some(v@), None => %s is None }' % (VS, VS), ['C02', 'C16'])], decreases='self')
-    V('concatenate', clauses=[Clause('concatenate.sound', 'cat(olang(*a), olang(*b)).subset_of(olang(r))', ['C01', 'C16']),
-                              Clause('concatenate.exact', 'olang(r) == cat(olang(*a), olang(*b))', ['C02', 'C16'])])
-    V('union', clauses=[Clause('union.sound', 'olang(*a).union(olang(*b)).subset_of(olang(r))', ['C01', 'C16']),
-                        Clause('union.exact', 'olang(r) == olang(*a).union(olang(*b))', ['C02', 'C16'])])
+    V('concatenate', clauses=[Clause(*c) for c in CONCAT_CLAUSES])
+    V('union', clauses=[Clause(*c) for c in UNION_CLAUSES])
     V('remove_common_substring', clauses=[Clause('remove_common_substring.lang', '''match r {
             Some(c) => c@.len() > 0
                 && (substring is Prefix ==> lang(*old(a)) == cat(lit_lang(c@), lang(*final(a))) && lang(*old(b)) == cat(lit_lang(c@), lang(*final(b))))
@@ -70,7 +78,7 @@ def build(repo, spec_dir, canary=False):
             None => *final(a) == *old(a) && *final(b) == *old(b),
         }''', ['C01', 'C02', 'C16'])])
     A = lambda name, **kw: b.assumed_fn('expression.rs', name, within=EX, **kw)
-    A('new_alternation', ensures=['lang(r) == alt_lang(exprs@)'], why='sort_by_key(closure)')
+    A('new_alternation', ensures=NEW_ALTERNATION_ENSURES, why='sort_by_key(closure)')
     A('new_character_class', ensures=['lang(r) == class_lang(first_char_set@.union(second_char_set@))'], why='iterator chain')
     A('is_single_codepoint', ensures=['r ==> lang(*self) == class_lang(charset_spec(*self))'], why='string iteration; meaning of a one-char grapheme')
     A('extract_character_set', ensures=['r@ == charset_spec(expr)'], why='string iteration')
